@@ -1,5 +1,9 @@
 import ArgMapper.Model.Traverse
 import ArgMapper.Model.Dijkstra
+import ArgMapper.Proofs.TraverseDfs
+import ArgMapper.Proofs.TraverseKahn
+import ArgMapper.Proofs.TraverseReach
+import ArgMapper.Proofs.TraverseTopo
 /-!
 # C20 — traversals and orderings are exact
 
@@ -24,13 +28,30 @@ inductive Explored (g : AGraph α) (cb : α → DfsAct) (start : α) : α → Pr
 def Reportable (g : AGraph α) (cb : α → DfsAct) (start w : α) : Prop :=
   w ≠ start ∧ ∃ u, Explored g cb start u ∧ g.hasEdge u w = true
 
+theorem explored_iff (g : AGraph α) (cb : α → DfsAct) (start x : α) :
+    Explored g cb start x ↔ TraverseDfs.Expl g cb start x := by
+  constructor
+  · intro h
+    induction h with
+    | start => exact .start
+    | step _ he hne hd ih => exact .step ih he hne hd
+  · intro h
+    induction h with
+    | start => exact .start
+    | step _ he hne hd ih => exact .step ih he hne hd
+
+theorem reportable_iff (g : AGraph α) (cb : α → DfsAct) (start w : α) :
+    Reportable g cb start w ↔ TraverseDfs.Rep g cb start w := by
+  simp only [Reportable, TraverseDfs.Rep, explored_iff]
+
 /-- **C20_dfs (exactness)** — if no reportable vertex aborts, the callback is invoked on exactly the
 reportable vertices, the traversal is not aborted and the fuel of the wrapper is never exhausted. -/
 theorem dfs_exact (g : AGraph α) (hwf : g.WF) (cb : α → DfsAct) (start : α) (hs : start ∈ g.verts)
     (hna : ∀ w, Reportable g cb start w → cb w ≠ .abort) :
     (DFS g cb start).outOfFuel = false ∧ (DFS g cb start).aborted = false ∧
     ∀ w, w ∈ (DFS g cb start).log ↔ Reportable g cb start w := by
-  sorry
+  simp only [reportable_iff] at hna ⊢
+  exact TraverseDfs.DFS_exact hwf cb start hs hna
 
 /-- **C20_dfs (once)** — with or without aborts: only reportable vertices are ever reported, and a
 vertex the traversal descends into is reported exactly once. -/
@@ -38,12 +59,13 @@ theorem dfs_sound_once (g : AGraph α) (hwf : g.WF) (cb : α → DfsAct) (start 
     (DFS g cb start).outOfFuel = false ∧
     (∀ w ∈ (DFS g cb start).log, Reportable g cb start w) ∧
     ((DFS g cb start).log.filter (fun w => decide (cb w = .descend))).Nodup := by
-  sorry
+  simp only [reportable_iff]
+  exact TraverseDfs.DFS_sound_once hwf cb start hs
 
 /-- **C20_dfs (abort)** — the traversal reports an error iff an aborting vertex was reported. -/
 theorem dfs_abort (g : AGraph α) (hwf : g.WF) (cb : α → DfsAct) (start : α) (hs : start ∈ g.verts) :
-    (DFS g cb start).aborted = true ↔ ∃ w ∈ (DFS g cb start).log, cb w = .abort := by
-  sorry
+    (DFS g cb start).aborted = true ↔ ∃ w ∈ (DFS g cb start).log, cb w = .abort :=
+  TraverseDfs.DFS_abort hwf cb start hs
 
 /-! ## topological sorting -/
 
@@ -55,18 +77,19 @@ def IsTopo (g : AGraph α) (L : List α) : Prop :=
 /-- a cycle: a vertex that reaches itself through at least one edge -/
 def Cyclic (g : AGraph α) : Prop := ∃ u v, g.hasEdge u v = true ∧ Reach g v u
 
-theorem isTopoOrder_iff (g : AGraph α) (L : List α) : isTopoOrder g L = true ↔ IsTopo g L := by
-  sorry
+theorem isTopoOrder_iff (g : AGraph α) (L : List α) : isTopoOrder g L = true ↔ IsTopo g L :=
+  TraverseKahn.isTopoOrder_iff' g L
 
 /-- **C20_kahn** — on an acyclic graph the result is a topological order; a cyclic graph is
 refused (`none` models the `panic`).  The argument graph is a value, so "original untouched"
 holds by construction in the model and is compared on the code by the harness. -/
 theorem kahn_acyclic (g : AGraph α) (hwf : g.WF) (hac : ¬ Cyclic g) :
-    ∃ L, kahnSort g = some L ∧ IsTopo g L := by
-  sorry
+    ∃ L, kahnSort g = some L ∧ IsTopo g L :=
+  TraverseKahn.kahn_acyclic' g hwf hac
 
-theorem kahn_cyclic (g : AGraph α) (hwf : g.WF) (hc : Cyclic g) : kahnSort g = none := by
-  sorry
+theorem kahn_cyclic (g : AGraph α) (hwf : g.WF) (hc : Cyclic g) : kahnSort g = none :=
+  have _ := hwf  -- not needed: a cyclic graph is refused whatever the representation
+  TraverseKahn.kahn_cyclic' g hc
 
 /-! ## strongly connected components -/
 
@@ -76,14 +99,14 @@ def IsSccPartition (g : AGraph α) (comps : List (List α)) : Prop :=
   ∀ c ∈ comps, ∀ u ∈ c, ∀ v ∈ g.verts, (v ∈ c ↔ (Reach g u v ∧ Reach g v u))
 
 theorem reachB_iff (g : AGraph α) (hwf : g.WF) (u v : α) (hu : u ∈ g.verts) :
-    reachB g u v = true ↔ Reach g u v := by
-  sorry
+    reachB g u v = true ↔ Reach g u v :=
+  TraverseReach.reachB_iff' g hwf u v hu
 
 /-- **C20_scc_checker_sound_complete** — the executable checker applied to the outputs of the
 model and of the real code decides exactly the specification. -/
 theorem isSccPartition_iff (g : AGraph α) (hwf : g.WF) (comps : List (List α)) :
-    isSccPartition g comps = true ↔ IsSccPartition g comps := by
-  sorry
+    isSccPartition g comps = true ↔ IsSccPartition g comps :=
+  TraverseReach.isSccPartition_iff' g hwf comps
 
 /-! ## topological shortest paths agree with Dijkstra -/
 
@@ -98,12 +121,20 @@ any topological order yields, for every non-root vertex, its true minimum distan
 shortest path. -/
 theorem topo_exact (g : AGraph α) (hwf : g.WF) (root : α) (hroot : ∀ v ∈ g.verts, Reach g root v)
     (L : List α) (hL : IsTopo g L) (v : α) (hv : v ∈ g.verts) (hne : v ≠ root) :
-    ∃ d, lookupD (topoShortestPath g L).dist v = some d ∧ IsDist g root v d := by
-  sorry
+    ∃ d, lookupD (topoShortestPath g L).dist v = some d ∧ IsDist g root v d :=
+  TraverseTopo.topo_exact' g hwf root hroot L hL.1 hL.2.1 hL.2.2 v hv hne
 
 /-- non-vacuity -/
 example : let g : AGraph Nat := ⟨[0, 1, 2, 3], [(0, 1, 2), (1, 2, 0), (0, 2, 5), (2, 3, 1)]⟩
     g.WF ∧ ¬ Cyclic g ∧ kahnSort g = some [0, 1, 2, 3] ∧ (∀ v ∈ g.verts, Reach g 0 v) := by
-  sorry
+  intro g
+  have hwf : g.WF := by
+    refine ⟨by decide, by decide, by decide⟩
+  refine ⟨hwf, ?_, by decide, ?_⟩
+  · unfold Cyclic
+    rw [TraverseReach.cyclic_iff_any g hwf]
+    decide
+  · rw [TraverseReach.all_reach_iff g hwf 0 (by decide)]
+    decide
 
 end ArgMapper.C20
